@@ -115,3 +115,43 @@ def report_sites(f: FunctionInfo, row) -> list:
                     if isinstance(e, ast.Subscript) and isinstance(e.value, ast.Name) and e.value.id == errs:
                         out.append(("setlast", n, n.value))
     return out
+
+
+def fixed_aliases(f: FunctionInfo, fixed: str) -> set:
+    """names that hold the fixed-mode list or a copy / default / sub-selection of it: `fixed` itself and every
+    local all of whose definitions are built from such names by `[] if x is None else x`, `x or []`,
+    list / tuple / sorted / set(x), or a comprehension that filters x"""
+    names = {fixed}
+
+    def ok(e, me=None):
+        if isinstance(e, ast.Name):
+            return e.id in names or e.id == me
+        if isinstance(e, (ast.List, ast.Tuple)) and not e.elts:
+            return True
+        if isinstance(e, ast.IfExp):
+            return ok(e.body, me) and ok(e.orelse, me)
+        if isinstance(e, ast.BoolOp) and isinstance(e.op, ast.Or):
+            return all(ok(v, me) for v in e.values)
+        if isinstance(e, ast.Call) and isinstance(e.func, ast.Name) and e.func.id in ("list", "tuple", "sorted", "set", "frozenset") and len(e.args) <= 1 and not e.keywords:
+            return not e.args or ok(e.args[0], me)
+        if isinstance(e, (ast.ListComp, ast.GeneratorExp, ast.SetComp)) and len(e.generators) == 1:
+            g = e.generators[0]
+            return isinstance(g.target, ast.Name) and isinstance(e.elt, ast.Name) and e.elt.id == g.target.id and ok(g.iter, me)
+        return False
+
+    defs = {}
+    for s in own_scope_nodes(f.node):
+        if isinstance(s, ast.Assign) and len(s.targets) == 1 and isinstance(s.targets[0], ast.Name):
+            defs.setdefault(s.targets[0].id, []).append(s.value)
+        elif isinstance(s, (ast.AugAssign, ast.For)):
+            for x in ast.walk(s.target):
+                if isinstance(x, ast.Name):
+                    defs.setdefault(x.id, []).append(None)
+    changed = True
+    while changed:
+        changed = False
+        for nm, vs in defs.items():
+            if nm not in names and vs and all(v is not None and ok(v, nm) for v in vs) and any(any(isinstance(x, ast.Name) and x.id in names for x in ast.walk(v)) for v in vs):
+                names.add(nm)
+                changed = True
+    return names
